@@ -219,7 +219,8 @@ class Check:
                     "skipped_out_of_domain": 0, "models": [], "known_findings_seen": 0}
         self.assumptions = []
         self.violations = 0
-        self.replay_dir = os.path.join(ROOT, "replays", pid)
+        self.scratch = bool(os.environ.get("VERIF_NO_EVIDENCE"))     # used when trying seeded changes
+        self.replay_dir = os.path.join(WORK, "replays-scratch", pid) if self.scratch else os.path.join(ROOT, "replays", pid)
         self._nontrivial = set()
         self.known = load_known()
         self._known_printed = set()
@@ -279,8 +280,9 @@ class Check:
               "violations": self.violations}
         if self.notes:
             ev["coverage"]["notes"] = self.notes
-        os.makedirs(os.path.join(ROOT, "evidence"), exist_ok=True)
-        with open(os.path.join(ROOT, "evidence", self.pid + ".json"), "w") as f:
+        evdir = os.path.join(WORK, "evidence-scratch") if self.scratch else os.path.join(ROOT, "evidence")
+        os.makedirs(evdir, exist_ok=True)
+        with open(os.path.join(evdir, self.pid + ".json"), "w") as f:
             json.dump(ev, f, indent=1, ensure_ascii=False)
         log("[%s] %s: evaluations=%d nontrivial=%d states=%d traces=%d drift=%d violations=%d wall=%.0fs" % (
             self.pid, self.tier, self.cov["evaluations"], self.cov["distinct_nontrivial"], self.cov["states"],
